@@ -232,17 +232,37 @@ Fixpoint add_scan (l : list rle) (r2 : rle) : option (list rle * Z) :=
     else continue_
   end.
 
-Fixpoint add_runs (l rles2 : list rle) (added : Z) : list rle * Z :=
+(* the code before repo_patches/C18-3-fix.diff: the count is taken from the one run that is
+   extended, so a run bridging two existing runs is counted as if only the first existed *)
+Fixpoint add_runs_orig (l rles2 : list rle) (added : Z) : list rle * Z :=
   match rles2 with
   | [] => (l, added)
   | r2 :: t => match add_scan l r2 with
-               | Some (l', n) => add_runs l' t (wS 64 (added + n))
-               | None => add_runs (l ++ [r2]) t (wS 64 (added + rlen r2))
+               | Some (l', n) => add_runs_orig l' t (wS 64 (added + n))
+               | None => add_runs_orig (l ++ [r2]) t (wS 64 (added + rlen r2))
                end
   end.
-Definition add (l rles2 : list rle) : list rle * Z := add_runs l rles2 0.
+Definition add_orig (l rles2 : list rle) : list rle * Z := add_runs_orig l rles2 0.
 
 Definition num_voxels (l : list rle) : Z := fold_right (fun r a => rlen r + a) 0 l.
+
+(* uncoveredVoxels (repaired code): cut every run of the receiver out of the new run; what is left
+   are the voxels no run holds.  (The uint64/int64 sums of int32 lengths are not wrapped.) *)
+Definition cut_frags (frags : list rle) (r : rle) : list rle :=
+  flat_map (fun f => match excise f r with None => [f] | Some cut => cut end) frags.
+Definition uncovered (l : list rle) (r2 : rle) : list rle := fold_left cut_frags l [r2].
+
+Fixpoint add_runs (l rles2 : list rle) (added : Z) : list rle * Z :=
+  match rles2 with
+  | [] => (l, added)
+  | r2 :: t =>
+    let n := num_voxels (uncovered l r2) in
+    match add_scan l r2 with
+    | Some (l', _) => add_runs l' t (added + n)
+    | None => add_runs (l ++ [r2]) t (added + n)
+    end
+  end.
+Definition add (l rles2 : list rle) : list rle * Z := add_runs l rles2 0.
 
 (* ---- binary encoding: x, y, z, length as little-endian int32 ---- *)
 Definition le32 (v : Z) : bytes := le_enc 4 (Z.to_N (u32 v)).
